@@ -125,21 +125,21 @@ def get_mutex_formula(relation: Relation) -> str:
 def get_cardinality_formula(relation: Relation) -> str:
     parent = relation.parent.name
     children = [child.name for child in relation.children]
+    card_max = len(children) if relation.card_max == -1 else min(relation.card_max, len(children))
     or_ctc = []
-    for k in range(relation.card_min, relation.card_max + 1):
+    for k in range(relation.card_min, card_max + 1):
         combi_k = list(itertools.combinations(children, k))
         for positives in combi_k:
             negatives = [ch for ch in children if ch not in positives]
             negatives_str = [f"{PLWriter.LogicConnective.NOT.value} " + f for f in negatives]
-            positives_and_ctc = f'{f" {PLWriter.LogicConnective.AND.value} ".join(positives)}'
-            negatives_and_ctc = f'{f" {PLWriter.LogicConnective.AND.value} ".join(negatives_str)}'
-            if positives_and_ctc and negatives_and_ctc:
-                and_ctc = f'{positives_and_ctc} {PLWriter.LogicConnective.AND.value} {negatives_and_ctc}'
-            else:
-                and_ctc = f'{positives_and_ctc}{negatives_and_ctc}'
-            or_ctc.append(and_ctc)
-    formula_or_ctc = f'{f" {PLWriter.LogicConnective.OR.value} ".join(or_ctc)}'
-    return f'{parent} {PLWriter.LogicConnective.EQUIVALENCE.value} {formula_or_ctc}'
+            and_ctc = f" {PLWriter.LogicConnective.AND.value} ".join(list(positives) + negatives_str)
+            or_ctc.append(f'({and_ctc})')
+    or_children = f" {PLWriter.LogicConnective.OR.value} ".join(children)
+    formula_or_ctc = f" {PLWriter.LogicConnective.OR.value} ".join(or_ctc)
+    # The children need the parent, and the parent needs a valid combination of children
+    return f'(({or_children}) {PLWriter.LogicConnective.IMPLIES.value} {parent}) ' \
+           f'{PLWriter.LogicConnective.AND.value} ' \
+           f'({parent} {PLWriter.LogicConnective.IMPLIES.value} ({formula_or_ctc}))'
 
 
 def get_constraint_formula(ctc: Constraint) -> str:
